@@ -5,7 +5,7 @@ cd /repo || exit 2
 if ! git apply --check "$P" 2>/dev/null; then echo "PATCH DOES NOT APPLY: $P"; exit 3; fi
 git apply "$P"
 for prop in "$@"; do
-  (cd /verif && ./check $prop 2>&1 | grep -E "VIOLATION|BROKEN|obligations discharged|govc failed|load error" | cut -c1-300)
+  (cd /verif && VERIF_EVIDENCE_DIR=/verif/.work/mutant-evidence ./check $prop 2>&1 | grep -E "VIOLATION|BROKEN|obligations discharged|govc failed|load error" | cut -c1-300)
 done
 git checkout -- . 
 git status --short | grep -v '^??' | head -3
